@@ -268,14 +268,41 @@ func ruleC11Use(p *Program, r *Run) {
 			fname := FuncName(p.PQL, fd)
 			r.Saw(fname)
 			key := fname + " call of parser.Walk"
-			lit, ok := call.Args[1].(*ast.FuncLit)
-			if !ok {
-				r.Fail("C11/use", key, p.Pos(call.Pos()), "visitor is not a function literal; cannot decide that it always descends")
+			// the visitor's code: a function literal (directly or through a local variable), a method value or a
+			// named function of the module
+			var body *ast.BlockStmt
+			switch v := ast.Unparen(p.DefExpr(call.Args[1])).(type) {
+			case *ast.FuncLit:
+				body = v.Body
+			case *ast.Ident:
+				if f, isFn := info.Uses[v].(*types.Func); isFn {
+					if d, _ := p.DeclOf(f); d != nil {
+						body = d.Body
+					}
+				}
+			case *ast.SelectorExpr:
+				if sel := info.Selections[v]; sel != nil && sel.Kind() == types.MethodVal {
+					if f, isFn := sel.Obj().(*types.Func); isFn {
+						if d, _ := p.DeclOf(f); d != nil {
+							body = d.Body
+						}
+					}
+				} else if f, isFn := info.Uses[v.Sel].(*types.Func); isFn {
+					if d, _ := p.DeclOf(f); d != nil {
+						body = d.Body
+					}
+				}
+			}
+			if body == nil {
+				r.Fail("C11/use", key, p.Pos(call.Pos()), "the visitor's code cannot be found (not a function literal, method value or named function); cannot decide that it always descends")
 				return true
 			}
 			allTrue := true
 			rets := 0
-			ast.Inspect(lit.Body, func(y ast.Node) bool {
+			ast.Inspect(body, func(y ast.Node) bool {
+				if _, nested := y.(*ast.FuncLit); nested {
+					return false
+				}
 				if ret, ok := y.(*ast.ReturnStmt); ok {
 					rets++
 					if len(ret.Results) != 1 {
